@@ -30,7 +30,8 @@ RULE = ("geometries incl. k=1, k=n-1, n=255; message lengths 1..k incl. all-zero
 
 def classify_f19(call):
     """F19: unireedsolomon raises inside errors-and-erasures decoding although the pattern is within capacity"""
-    return call is not None and call["lib"].startswith("unireedsolomon") and call["erase"] and call["result"].startswith("err:")
+    # (also observed without erasure positions for decode_fast, codec 2: e.g. (27,9), 9 errors)
+    return call is not None and call["lib"].startswith("unireedsolomon") and call["result"].startswith("err:")
 
 
 def one_case(rng, big):
@@ -160,21 +161,7 @@ def run(oc, tier, seed, model_available, escalate):
 
 
 def replay_finding(f):
-    """F19 witness: ECCMan(10,7,algo=2), message 96c0cb72e5d90a, one wrong symbol at 2, one erased at 3"""
-    w = f["witness"]
-    man = cu.manager(w["algo"], w["n"], w["k"])
-    msg = bytes.fromhex(w["msg"])
-    with common.quiet():
-        par = bytes(man.encode(msg))
-    rx = bytearray(msg + par)
-    for p, v in w["set"]:
-        rx[p] = v
-    try:
-        with common.quiet():
-            res = man.decode(bytes(rx[:len(msg)]), bytes(rx[len(msg):]), enable_erasures=True, erasures_char=0)
-        return None if (bytes(res[0]), bytes(res[1])) == (msg, par) else "wrong result"
-    except Exception as e:
-        return "raises %s" % type(e).__name__
+    return cu.replay_f19(f)
 
 
 def search(seed, tier, hints):
